@@ -81,7 +81,7 @@ def sankey_case(rec, hub, rng, tier, i):
     except Exception as e:
         rec.violation(MS, "sankey:raised-on-a-valid-configuration", {"exc": f"{type(e).__name__}: {str(e)[:300]}", "slice_dict": {k_: str(v) for k_, v in slice_dict.items()}, "split": split, "exclude_processes": excl_p})
         return
-    if i % 4 == 1 and len(d.processes) > 2:
+    if i % 2 == 1 and len(d.processes) > 2:
         # the same plotter again after the user changed its exclusion list: the second figure must reflect the settings it has THEN
         more = [p for p in d.processes[:-1] if p not in excl_p]
         if more:
@@ -146,7 +146,7 @@ def array_cases(rec, hub, rng, tier, i):
     order = [all_dims[j] for j in rng.permutation(nd)]
     dims = fd.DimensionSet(dim_list=order)
     vals = (64.0 + rng.permutation(int(np.prod(dims.shape))) * 0.25).reshape(dims.shape)
-    if i % 2:
+    if (i // 4) % 2:
         vals = vals / 3.0 + 2.0 ** 25  # needs the full double precision and lies above 2**24
     arr = fd.FlodymArray(dims=dims, values=vals, name="quantity")
     L = LArr.from_snap(Snap(arr))
